@@ -130,6 +130,11 @@ impl<S: MdkStorageProvider> World<S> {
             _ => "none".into(),
         }
     }
+    /// Is client c an admin in ITS current state (ground truth from its own MLS group data)?
+    pub fn is_admin_now(&self, c: usize) -> bool {
+        let Some(g) = self.clients[c].mdk.load_mls_group(&self.gid).ok().flatten() else { return false };
+        mdk_core::extension::NostrGroupDataExtension::from_group(&g).map(|d| d.admins.contains(&self.clients[c].keys.public_key())).unwrap_or(false)
+    }
     /// Event number of the commit currently pending at client c (identified by the epoch authenticator its staged
     /// commit will produce, registered when the commit was created).
     pub fn pending_of(&self, c: usize) -> Option<u64> {
@@ -217,15 +222,26 @@ impl<S: MdkStorageProvider> World<S> {
                 let mut swept = swept;
                 if let Some(pk) = vpk { for (i, c) in self.clients.iter().enumerate() { if c.keys.public_key() == pk && !swept.contains(&i) { swept.push(i); } } }
                 let leave_refs: Vec<u64> = swept.iter().filter(|x| vpk.map(|pk| self.clients[**x].keys.public_key() != pk).unwrap_or(true)).filter_map(|x| self.leave_ev.get(x)).cloned().collect();
+                // ad<j> / un<j>: an admin grants / revokes admin rights of member j (update_group_data with a new admin list)
+                let admin_change: Option<(bool, usize)> = kind.strip_prefix("ad").filter(|v| v.chars().all(|c| c.is_ascii_digit()) && !v.is_empty()).and_then(|v| v.parse().ok()).map(|j| (true, j))
+                    .or_else(|| kind.strip_prefix("un").and_then(|v| v.parse().ok()).map(|j| (false, j)));
+                let new_admins: Option<Vec<nostr::PublicKey>> = admin_change.and_then(|(grant, j)| {
+                    let g = self.clients[m].mdk.load_mls_group(&gid).ok().flatten()?;
+                    let mut a = mdk_core::extension::NostrGroupDataExtension::from_group(&g).ok()?.admins;
+                    let pk = self.clients[j].keys.public_key();
+                    if grant { a.insert(pk); } else { a.remove(&pk); }
+                    Some(a.into_iter().collect())
+                });
                 let joiner: Option<usize> = kind.strip_prefix("add").and_then(|v| v.parse().ok());
                 let jkp = joiner.map(|j| kp(&self.clients[j].mdk, &self.clients[j].keys));
                 let r = catch_unwind(AssertUnwindSafe(|| match kind {
                     k if k.starts_with("add") => self.clients[m].mdk.add_members(&gid, &[jkp.clone().unwrap()]),
+                    _ if new_admins.is_some() => self.clients[m].mdk.update_group_data(&gid, NostrGroupDataUpdate::new().admins(new_admins.clone().unwrap())),
                     k if k.starts_with("rv") => self.clients[m].mdk.remove_members(&gid, &[vpk.unwrap()]),
                     "su" => self.clients[m].mdk.self_update(&gid),
                     _ => self.clients[m].mdk.update_group_data(&gid, NostrGroupDataUpdate::new().name(format!("g{}", ev + 1))),
                 }));
-                let is_admin = self.admin_mask & (1 << m) != 0;
+                let is_admin = self.is_admin_now(m);
                 match r {
                     Ok(Ok(u)) => {
                         self.register_pending(m, ev);
@@ -249,7 +265,7 @@ impl<S: MdkStorageProvider> World<S> {
                 use tls_codec::Serialize as _;
                 let (m, akind, victim, ev, ts) = (n(2) as usize, t[3], n(4) as usize, n(5), n(6));
                 let st = self.sigma_of(m, None); let ep = self.mls_epoch(m);
-                let is_admin = self.admin_mask & (1 << m) != 0;
+                let is_admin = self.is_admin_now(m);
                 // OpenMLS sweeps the builder's pending proposals into the commit (by reference), exactly as for MDK's own commits
                 let swept: Vec<usize> = self.clients[m].mdk.pending_removed_members_pubkeys(&self.gid).unwrap_or_default().iter()
                     .filter_map(|pk| (0..self.clients.len()).filter(|i| self.clients[*i].keys.public_key() == *pk).max_by_key(|i| self.leave_ev.contains_key(i))).collect();
